@@ -104,6 +104,7 @@ for _pid in ("C16", "C17"):
             T("Pins.closeFinisherShape", "pin", "GetWriter: the closeFinisher closure (no report on revalidation; name and size as handed in)"),
             T("Pins.finishAndNotifyShape", "pin", "finishAndNotify reports the writer's current key name and written size"),
             T("Pins.setAccessTimeShape", "pin", "setAccessTime: the access is booked under the key handed in"),
+            T("Pins.getAccessCall", "pin", "storage.Get books the access under the key that was found"),
         ]
 
 # C15 in histories (stream sysc): whatever path a Range request takes (fill, hit, REVALIDATION of a stale entry), the origin is asked for the whole resource
